@@ -234,6 +234,8 @@ def _ops():
     op("t.inverse", (2, 3), ("t0",), lambda t: t.inverse())
     op("t**2", (2, 3), ("t0",), lambda t: t**2)
     op("t**-1", (2, 3), ("t0",), lambda t: t**-1)
+    op("t**0", (2, 3), ("t0",), lambda t: t**0)
+    op("t**3", (2, 3), ("t0",), lambda t: t**3)
     op("t.apply", (2, 3), ("t1", "p1"), lambda t, x: t.apply(x))
     # ---- quadrics
     op("q.contains(on)", (2, 3), ("circle" , "qon"), lambda q, x: q.contains(x))
